@@ -29,13 +29,10 @@ Proof.
   intro Heq. inversion Heq. rops. lra.
 Qed.
 
-(** plane-radius-reset: a radius perturbation on a flat surface: reset() writes radius = inf into a
-    StandardGeometry instead of restoring the Plane (the kind of the surface differs from the nominal lens).
-    Witness: treset on the NOMINAL lens already changes it (first statement of every trial). *)
+(** plane-radius-reset was repaired in /repo (Optic.set_radius keeps / restores the Plane for an infinite radius); the
+    model's [set_rad] follows.  Over the reals [isinf_] is constantly false, so the clause is exercised by the execution
+    check (scenario t-plane of tools/props/C15.py) only. *)
 Definition lB : clens (O:=ROps) := mkL (O:=ROps) [S GPlane 0 (-100) air; S GPlane 0 0 (MIdeal (O:=ROps) 1.5 0); S GStd (-60) 5 air; S GPlane 0 95 air] [].
-Theorem reset_plane_radius_refuted :
-  treset vs up (map (mkvar vg lB) [hA]) [] lB <> lB.
-Proof. intro Heq. norm Heq. discriminate Heq. Qed.
 
 (** D23: an index perturbation on a catalogue glass is reset to a dispersion-free IdealMaterial. *)
 Definition lC : clens (O:=ROps) := mkL (O:=ROps) [S GPlane 0 (-100) air; S GStd 60 0 (MGlass (O:=ROps) 0); S GStd (-60) 5 air; S GPlane 0 95 air] [].
